@@ -828,3 +828,123 @@ DR_SCOPE = {
 def dr_for_property(F, pid, rule_id):
 	res, floor = DR_SCOPE[pid]
 	return dr_rule(F, rule_id, res, floor)
+
+# ----------------------------------------------------------------------------- identity comparisons (what a function compares with ==)
+# "Is this the same HTLC / transaction / peer / payment?" is decided with `==` / `!=` on an identity type (HTLCSource, Txid, OutPoint,
+# ChannelId, PaymentHash, PublicKey, SentHTLCId, ...).  A function that used to match on one identity and now matches on another
+# (`cur_htlc == htlc` instead of `cur_source == source`: an HTLCOutputInCommitment also carries its output index, which changes when
+# another HTLC is added) keeps type-checking.  The table (rules/provenance_idents.json) holds, per function, the identity types it compares
+# on the reviewed tree; a reviewed (function, type) pair must not disappear while the function exists.  New pairs and new functions are
+# not judged.
+_IDC = {}
+_ID_TABLE = None
+_ID_TYPES = {'Txid', 'Wtxid', 'PublicKey', 'OutPoint', 'ChannelId', 'ScriptBuf', 'Script', 'NodeId', 'PaymentHash', 'PaymentPreimage', 'PaymentSecret',
+	'BlockHash', 'ChainHash', 'HTLCSource', 'SentHTLCId', 'ClaimId', 'PaymentId', 'InterceptId', 'TxOut', 'Transaction', 'MonitorName',
+	'HTLCOutputInCommitment', 'OffersContext', 'Nonce', 'OfferId', 'Header', 'ValidatedBlockHeader', 'BlockHeaderData', 'Signature', 'SecretKey'}
+_ID_WRAP = ('core::option::Option<', 'alloc::boxed::Box<', 'alloc::vec::Vec<', 'alloc::sync::Arc<')
+
+def id_table():
+	global _ID_TABLE
+	if _ID_TABLE is None:
+		_ID_TABLE = json.load(open(os.path.join(os.path.dirname(os.path.abspath(__file__)), 'provenance_idents.json')))
+	return _ID_TABLE
+
+def _core_type(g):
+	"""first generic argument of PartialEq::eq, stripped of references, lifetimes and Option / Box / Vec / Arc wrappers"""
+	import re
+	s = (g or '').strip()
+	if s.startswith('['):
+		s = s[1:]
+	# first top-level comma-separated item
+	depth = 0
+	for i, ch in enumerate(s):
+		if ch in '<([':
+			depth += 1
+		elif ch in '>)]':
+			depth -= 1
+			if depth < 0:
+				s = s[:i]
+				break
+		elif ch == ',' and depth == 0:
+			s = s[:i]
+			break
+	s = s.strip()
+	for _ in range(6):
+		s = re.sub(r"^&\s*('\{erased\}\s*)?(mut\s+)?", '', s).strip()
+		for w in _ID_WRAP:
+			if s.startswith(w):
+				s = s[len(w):]
+				# drop the allocator argument and the closing bracket
+				s = re.sub(r',\s*alloc::alloc::Global\s*>$', '', s)
+				if s.endswith('>'):
+					s = s[:-1]
+				break
+	s = re.sub(r'<.*$', '', s)
+	return s.rsplit('::', 1)[-1] if '::' in s else s
+
+def id_census(F):
+	if F.dir in _IDC:
+		return _IDC[F.dir]
+	cnt = collections.Counter()
+	where = {}
+	for n, r in F.fns.items():
+		if not n.startswith(('lightning', '<lightning')) or 'ser_macros' in r['file'] or F.impl_kind.get(root_fn(n)) == 'derived':
+			continue
+		try:
+			fu = F.func(n)
+		except AnchorMissing:
+			continue
+		fl = r['file'].split('/')[0] + ':' + (r['file'].split('src/')[-1] if 'src/' in r['file'] else r['file'])
+		tail = root_fn(n).rsplit('::', 1)[-1]
+		for b, ci in fu.calls():
+			f = norm(ci.get('t') or ci.get('f') or '')
+			if not f.endswith(('PartialEq::eq', 'PartialEq::ne')):
+				continue
+			ty = _core_type(ci.get('g'))
+			if ty not in _ID_TYPES:
+				continue
+			k = (fl, tail, ty)
+			cnt[k] += 1
+			where.setdefault(k, (n, fu.line_of(b)))
+	_IDC[F.dir] = (cnt, where)
+	return _IDC[F.dir]
+
+def id_rule(F, rule_id, file_res, floor=1):
+	import re
+	cnt, where = id_census(F)
+	_, _, known = sc_census(F)
+	tab = id_table()
+	out = []
+	n = 0
+	for fl, tail, ty in sorted(tuple(x) for x in tab['pairs']):
+		if not any(re.search(p, fl.replace(':', '/src/')) for p in file_res):
+			continue
+		if tail not in known.get(fl, ()):
+			continue   # the function is gone (renamed / removed): not judged
+		n += 1
+		if cnt.get((fl, tail, ty), 0) == 0:
+			fns = [x for x in F.fns if root_fn(x).rsplit('::', 1)[-1] == tail and F.fns[x]['file'].endswith(fl.split(':', 1)[1])]
+			out.append(Result(rule_id, False, 'identity:%s:%s' % (tail, ty), '%s no longer compares two %s values with == / != (reviewed: it did): what it matched by that identity (the same HTLC, transaction, channel, peer, payment) is now matched by something else or not at all' % (tail, ty), 1, where=F.where(fns[0]) if fns else fl))
+	if n < floor:
+		return [Result(rule_id, False, 'anchor:identity', 'only %d reviewed identity comparisons left in %s (expected >= %d)' % (n, file_res, floor))]
+	if not out:
+		out.append(Result(rule_id, True, 'ok:identity', '%d reviewed (function, identity type) comparisons in %s are all still made' % (n, '|'.join(file_res)), n))
+	return out
+
+ID_SCOPE = {
+	'C02': ([r'ln/channelmanager\.rs$', r'chain/channelmonitor\.rs$'], 55),
+	'C03': ([r'ln/outbound_payment\.rs$', r'ln/channelmanager\.rs$', r'chain/channelmonitor\.rs$'], 60),
+	'C05': ([r'ln/channel\.rs$', r'ln/chan_utils\.rs$', r'sign/mod\.rs$'], 30),
+	'C06': ([r'chain/channelmonitor\.rs$', r'chain/onchaintx\.rs$', r'chain/package\.rs$'], 45),
+	'C07': ([r'chain/channelmonitor\.rs$', r'chain/onchaintx\.rs$', r'chain/package\.rs$', r'util/sweep\.rs$'], 48),
+	'C09': ([r'chain/chainmonitor\.rs$', r'ln/channelmanager\.rs$'], 20),
+	'C10': ([r'ln/channelmanager\.rs$', r'chain/channelmonitor\.rs$'], 55),
+	'C11': ([r'chain/channelmonitor\.rs$', r'chain/onchaintx\.rs$', r'ln/channel\.rs$'], 65),
+	'C16': ([r'routing/router\.rs$'], 5),
+	'C17': ([r'routing/gossip\.rs$', r'routing/utxo\.rs$'], 6),
+	'C20': ([r'lightning-block-sync/'], 5),
+}
+
+def ids_for_property(F, pid, rule_id):
+	res, floor = ID_SCOPE[pid]
+	return id_rule(F, rule_id, res, floor)
